@@ -15,7 +15,8 @@ import matchcorr
 
 PID = 'C18'
 SOURCES = ['SoupVerif/Properties/C18.lean', 'SoupVerif/Spec/Calendar.lean', 'SoupVerif/Lemmas/Calendar.lean',
-           'SoupVerif/Model/Inputs.lean', 'SoupVerif/Model/Match.lean']
+           'SoupVerif/Model/Inputs.lean', 'SoupVerif/Model/Match.lean',
+           'SoupVerif/Generated/PyInputs.lean', 'SoupVerif/Model/PyExpr.lean', 'SoupVerif/Model/PyProg.lean', 'SoupVerif/Properties/C18Gen.lean']
 RULE = ('strings of each of the six HTML types: every (year, week in {0,1,52,53,54}) and every (year, month, day in '
         '{0,1,28..32}) for the tier\'s year range plus boundary years (1, 999, 1000, 9999, 10000, 100000, 400-multiples), '
         'all hh:mm near the limits, decimal strings with signs / fractions / exponents, shape mutations (wrong digit '
@@ -166,6 +167,10 @@ def gen_strings(rng, quick):
         for m in ((2, 12) if quick else (1, 2, 4, 12, 0, 13)):
             for d in (0, 1, 28, 29, 30, 31, 32):
                 out.append(('date', f'{ys}-{m:02d}-{d:02d}'))
+        if quick and y in (1, 4, 100, 400, 1999, 2000, 2024, 12345):       # every month's last days, for a few years
+            for m in range(0, 14):
+                for d in (30, 31, 32):
+                    out.append(('date', f'{ys}-{m:02d}-{d:02d}'))
         out.append(('month', f'{ys}-{rng.randint(0, 13):02d}'))
         out.append(('datetime-local', f'{ys}-{rng.randint(1, 12):02d}-{rng.randint(1, 31):02d}T{rng.randint(0, 24):02d}:{rng.randint(0, 60):02d}'))
     for h in range(0, 26):
@@ -322,12 +327,19 @@ def run(chk):
     quick = chk.tier == 'quick'
     strings = gen_strings(rng, quick)
     py_bad, known_hits, pyv = [], 0, []
+    raised = False
     seconds_hits = 0
     valid = set()
     lines = []
     for ty, s in strings:
-        py = cm.Inputs.parse_value(ty, s)
         exp = oracle(ty, s)
+        try:
+            py = cm.Inputs.parse_value(ty, s)
+        except Exception as e:       # the library raising on a min / max / value string is a failure of the property
+            py = None
+            if len(py_bad) < 5:
+                py_bad.append({'type': ty, 'value': s, 'py': 'raised ' + repr(e), 'oracle': exp})
+            raised = True
         pyv.append(py)
         if exp is not None:
             valid.add((ty, s))
@@ -376,10 +388,19 @@ def run(chk):
                 order_bad.append({'type': ty, 'a': s1, 'b': s2, 'py_lt': e, 'model': r})
         cases = range_docs(rng, 500 if quick else 20000)
         ndocs = len(cases)
-        for rec in matchcorr.run_cases(cases):
-            if not rec['agree']:
-                doc_bad.append({'case': rec['case'], 'py': rec['py'], 'model': rec['lean']})
-    range_bad, range_cov = range_oracle_sweep(random.Random(chk.seed ^ 0x18), 400 if quick else 12000)
+        try:
+            for rec in matchcorr.run_cases(cases):
+                if not rec['agree']:
+                    doc_bad.append({'case': rec['case'], 'py': rec['py'], 'model': rec['lean']})
+        except Exception:
+            if not raised:       # parse_value already raised on a plain string (reported below): the sweeps cannot run
+                raise
+    try:
+        range_bad, range_cov = range_oracle_sweep(random.Random(chk.seed ^ 0x18), 400 if quick else 12000)
+    except Exception as e:
+        if not raised:
+            raise
+        range_bad, range_cov = [], {'range_oracle_sweep': 'not run: ' + repr(e)}
     chk.coverage.update(range_cov)
     for i, bad in enumerate(range_bad[:4]):
         chk.violation(f'range{i}', {'what': ':in-range / :out-of-range differ from the HTML range rules (independent oracle: '
@@ -424,8 +445,13 @@ def replay(chk, path):
             return 1
         return 0
     if 'type' in data and 'value' in data:
-        py = cm.Inputs.parse_value(data['type'], data['value'])
         exp = oracle(data['type'], data['value'])
+        try:
+            py = cm.Inputs.parse_value(data['type'], data['value'])
+        except Exception as e:
+            print(json.dumps({'py': 'raised ' + repr(e), 'oracle': exp}))
+            print(f'VIOLATION property={PID} replay={path}')
+            return 1
         print(json.dumps({'py': py, 'oracle': exp}))
         if py != exp and not is_known_week53(data['type'], data['value'], py) and not is_known_seconds(data['type'], data['value'], py, exp):
             print(f'VIOLATION property={PID} replay={path}')
